@@ -14,11 +14,22 @@ import (
 // variable is written during Run.  (b) causality: for every k < T-1, changing the inputs after
 // step k (fresh symbols) or truncating the series after step k leaves outputs up to k unchanged.
 //vsym:prop=C14 tier=quick ints=int floats=real timeout=60 wall=240 cut=3 unwind=80
-func H_C14_pure_MODELNAME() { c14pure_MODELNAME(2, 3) }
+func H_C14_pure_MODELNAME() { c14pure_MODELNAME(2, 3, false) }
 
-func c14pure_MODELNAME(N, T int) {
+// H_C14_concrete_MODELNAME: Sacramento and Storage only (skipped above): the same obligations
+// with the REAL kernel on concrete parameter, input and state values.  A no-op for the others.
+//vsym:prop=C14 tier=quick ints=int floats=real timeout=60 wall=300 unwind=400
+func H_C14_concrete_MODELNAME() {
+	if "MODELNAME" != "Sacramento" && "MODELNAME" != "Storage" {
+		vsym.Reach("kernel-already-exercised-symbolically")
+		return
+	}
+	c14pure_MODELNAME(2, 3, true)
+}
+
+func c14pure_MODELNAME(N, T int, concrete bool) {
 	name := "MODELNAME"
-	if wrHeavyNoSummary(name) {
+	if !concrete && wrHeavyNoSummary(name) {
 		vsym.Note("kernel of " + name + " is outside the reach of the executor within the budget: this wrapper is not exercised with its own kernel")
 		vsym.Reach("skipped-heavy-kernel")
 		return
@@ -29,6 +40,14 @@ func c14pure_MODELNAME(N, T int) {
 	nI, nO := len(w.desc.Inputs), len(w.desc.Outputs)
 	params := w.params(N, []int{2, 3})
 	wrConstrain(name, w, params, N)
+	cval := func(k int) float64 { return 0.3 + 0.05*float64(k%3) }
+	if concrete && name == "Sacramento" {
+		for r := 0; r < w.rows; r++ {
+			for c := 0; c < N; c++ {
+				params.Set2(r, c, cval(c))
+			}
+		}
+	}
 	setup := func(x *wrSetup) {
 		if len(x.desc.Dimensions) > 0 {
 			x.m.InitialiseDimensions(w.m.FindDimensions(params))
@@ -40,7 +59,11 @@ func c14pure_MODELNAME(N, T int) {
 	for b := 0; b < N; b++ {
 		for i := 0; i < nI; i++ {
 			for t := 0; t < T; t++ {
-				inputs.Set3(b, i, t, vsym.Float64("input"))
+				if concrete {
+					inputs.Set3(b, i, t, 0.5+0.25*float64(b)+0.125*float64(t))
+				} else {
+					inputs.Set3(b, i, t, vsym.Float64("input"))
+				}
 			}
 		}
 	}
@@ -52,10 +75,19 @@ func c14pure_MODELNAME(N, T int) {
 			if structural && (s == 2 || s == 3 || s >= 4+int(states0.Get2(c, 2))+int(states0.Get2(c, 3))) {
 				continue
 			}
-			states0.Set2(c, s, vsym.Float64("state"))
+			if concrete {
+				states0.Set2(c, s, 0.125)
+				if name == "Storage" && s == 0 {
+					states0.Set2(c, s, 500000)
+				}
+			} else {
+				states0.Set2(c, s, vsym.Float64("state"))
+			}
 		}
 	}
-	wrConstrainData(name, inputs, states0)
+	if !concrete {
+		wrConstrainData(name, inputs, states0)
+	}
 	run := func(x *wrSetup, in data.ND3Float64, T2 int) (data.ND3Float64, data.ND2Float64) {
 		st := wrCopy2(states0)
 		out := data.NewArray3DFloat64(N, nO, T2)
@@ -100,10 +132,16 @@ func c14pure_MODELNAME(N, T int) {
 	inX := data.NewArray3DFloat64(1, nI, T+1)
 	for i := 0; i < nI; i++ {
 		for t := 0; t < T+1; t++ {
-			inX.Set3(0, i, t, vsym.Float64("otherlayout"))
+			if concrete {
+				inX.Set3(0, i, t, 0.75)
+			} else {
+				inX.Set3(0, i, t, vsym.Float64("otherlayout"))
+			}
 		}
 	}
-	wrConstrainData(name, inX, states0)
+	if !concrete {
+		wrConstrainData(name, inX, states0)
+	}
 	w.m.Run(inX, wrCopy2(states0), data.NewArray3DFloat64(N, nO, T+1))
 	oG, sG := run(w, inputs, T)
 	same(oA, oG, sA, sG, T, "identical-after-a-run-on-differently-shaped-data")
@@ -113,11 +151,17 @@ func c14pure_MODELNAME(N, T int) {
 		for b := 0; b < N; b++ {
 			for i := 0; i < nI; i++ {
 				for t := k + 1; t < T; t++ {
-					in2.Set3(b, i, t, vsym.Float64("laterinput"))
+					if concrete {
+						in2.Set3(b, i, t, 0.9)
+					} else {
+						in2.Set3(b, i, t, vsym.Float64("laterinput"))
+					}
 				}
 			}
 		}
-		wrConstrainData(name, in2, states0)
+		if !concrete {
+			wrConstrainData(name, in2, states0)
+		}
 		oE, _ := run(w, in2, T)
 		same(oA, oE, nil, nil, k+1, "outputs-do-not-depend-on-later-inputs")
 		in3 := data.NewArray3DFloat64(N, nI, k+1)
